@@ -213,7 +213,7 @@ class PathFlow:
                             if q1e != 'PRUNE':
                                 outs.append((tb, q1e, e3))
                     e4 = e2
-                    if src is not None and len(t['targets']) == 1 and t['targets'][0][0] in (0, 1):
+                    if src is not None and len(t['targets']) == 1 and t['targets'][0][0] in (0, 1) and f['locals'][src].get('adt') in VARIANTS:
                         e4 = e2.copy()
                         e4.known[src] = 1 - t['targets'][0][0]
                     for q1 in qs2:
@@ -303,7 +303,7 @@ class PathFlow:
             p = rv['place']
             if not p['proj']:
                 new = env.known.get(p['local'])
-                if new is None and f['locals'][p['local']].get('adt') in VARIANTS:
+                if new is None and f['locals'][p['local']].get('k') == 'adt':
                     _kill_moves(env, rv)
                     env.known.pop(x, None)
                     env.known[('d', x)] = p['local']
